@@ -24,7 +24,7 @@ def compare (m a b : Nat) : Bool := a == b || (m != 0 && a % m == b % m)
 /-- the callback family of `SwapValue` -/
 inductive SwapF where
   | inc | setk (k : Nat) | clear | nilcb
-deriving DecidableEq, Repr
+deriving DecidableEq, Repr, Hashable
 
 def SwapF.apply : SwapF → Nat → Nat
   | .inc, v => v + 1
@@ -35,7 +35,7 @@ def SwapF.apply : SwapF → Nat → Nat
 /-- the three cell operations -/
 inductive Op where
   | get | set (v : Nat) | swap (f : SwapF)
-deriving DecidableEq, Repr
+deriving DecidableEq, Repr, Hashable
 
 /-- cell content after an operation (a value equal to the old one w.r.t. `compare` is not stored) -/
 def Op.newVal (m val : Nat) : Op → Nat
@@ -65,7 +65,7 @@ inductive WKind where
   | veq (k : Nat)       -- validator v == k
   | vge (k : Nat)       -- validator v >= k
   | verr (k : Nat)      -- validator: error when v == k, true when v > k
-deriving DecidableEq, Repr
+deriving DecidableEq, Repr, Hashable
 
 inductive CRes where
   | ok | no | error
@@ -89,13 +89,13 @@ inductive WRes where
   | ok              -- WaitValueEmpty returned nil
   | err (e : Nat)
   | canceled
-deriving DecidableEq, Repr
+deriving DecidableEq, Repr, Hashable
 
 /-- an error channel handed to a wait call: buffered messages (`none` = a nil error) and closedness -/
 structure ECh where
   q : List (Option Nat) := []
   closed : Bool := false
-deriving DecidableEq, Repr
+deriving DecidableEq, Repr, Hashable
 
 def ECh.ready (e : ECh) : Bool := !e.q.isEmpty || e.closed
 
@@ -106,7 +106,7 @@ inductive TS where
   | wParked (k : WKind) (e : Option ECh) (ch : Nat)  -- in the select
   | wRet (r : WRes)                              -- about to return
   | done
-deriving DecidableEq, Repr
+deriving DecidableEq, Repr, Hashable
 
 structure St where
   val : Nat := 0
@@ -129,6 +129,9 @@ def St.norm (s : St) : Nat × Nat × Bool × List TS × List Nat :=
   (s.val, s.m, s.bc.cur.isSome, s.th.map (TS.norm s), s.cx)
 
 instance (priority := high) instBEqSt : BEq St := ⟨fun a b => a.norm == b.norm⟩
+
+/-- consistent with `instBEqSt` (used by the hash-indexed checker) -/
+instance instHashableSt : Hashable St := ⟨fun s => hash s.norm⟩
 
 inductive Obs where
   | new (v m : Nat)                          -- `new v m`: container created
